@@ -32,7 +32,7 @@ def keygenOpenIn (out : ζ) (t : τ) : Go.M (τ × Option ζ × Option ζ) := do
   else pure (a.2, some out, some stdin)
 
 theorem keygen_open_tie (convertFlag : Bool) (outFlag : Bytes) (t0 : τ) :
-    main_main nilZ stdout OF stdin Arg Op convertFlag outFlag t0 =
+    keygen_main nilZ stdout OF stdin Arg Op convertFlag outFlag t0 =
       if outFlag = [] then keygenOpenIn stdin Arg Op stdout t0
       else (do
         let f ← OF outFlag 193 384 t0
@@ -40,7 +40,7 @@ theorem keygen_open_tie (convertFlag : Bool) (outFlag : Bytes) (t0 : τ) :
         else keygenOpenIn stdin Arg Op f.1 f.2.2) := by
   by_cases ho : outFlag = []
   · subst ho
-    simp only [main_main, keygenOpenIn, bind, Except.bind, pure, Except.pure, bne_self_eq_false, Bool.false_eq_true, if_false, if_true]
+    simp only [keygen_main, keygenOpenIn, bind, Except.bind, pure, Except.pure, bne_self_eq_false, Bool.false_eq_true, if_false, if_true]
     cases h1 : Arg 0 t0 with
     | error f => rfl
     | ok a =>
@@ -56,7 +56,7 @@ theorem keygen_open_tie (convertFlag : Bool) (outFlag : Bytes) (t0 : τ) :
           · simp [he]
       · simp [hc]
   · have hb : (outFlag != ([] : Bytes)) = true := by simpa using ho
-    simp only [main_main, keygenOpenIn, bind, Except.bind, pure, Except.pure, hb, ho, if_true, if_false]
+    simp only [keygen_main, keygenOpenIn, bind, Except.bind, pure, Except.pure, hb, ho, if_true, if_false]
     cases h0 : OF outFlag 193 384 t0 with
     | error f => rfl
     | ok f =>
@@ -83,14 +83,14 @@ theorem keygen_open_tie (convertFlag : Bool) (outFlag : Bytes) (t0 : τ) :
     `(·, O_WRONLY|O_CREATE|O_EXCL, 0600, ·)` changes nothing -/
 theorem keygen_open_flags (OF' : Bytes → Int → UInt32 → τ → Go.M (ζ × Option Go.Err × τ))
     (h : ∀ n t, OF n 193 384 t = OF' n 193 384 t) (convertFlag : Bool) (outFlag : Bytes) (t0 : τ) :
-    main_main nilZ stdout OF stdin Arg Op convertFlag outFlag t0 =
-      main_main nilZ stdout OF' stdin Arg Op convertFlag outFlag t0 := by
+    keygen_main nilZ stdout OF stdin Arg Op convertFlag outFlag t0 =
+      keygen_main nilZ stdout OF' stdin Arg Op convertFlag outFlag t0 := by
   rw [keygen_open_tie, keygen_open_tie, h]
 
 /-- without `-o` nothing is opened for writing -/
 theorem keygen_no_o_no_open (convertFlag : Bool) (t0 : τ) :
-    main_main nilZ stdout OF stdin Arg Op convertFlag [] t0 =
-      main_main nilZ stdout (fun _ _ _ _ => .error (.panic 77)) stdin Arg Op convertFlag [] t0 := by
+    keygen_main nilZ stdout OF stdin Arg Op convertFlag [] t0 =
+      keygen_main nilZ stdout (fun _ _ _ _ => .error (.panic 77)) stdin Arg Op convertFlag [] t0 := by
   rw [keygen_open_tie, keygen_open_tie]; rfl
 
 end
